@@ -9,6 +9,7 @@ import (
 	"net"
 	"net/http"
 	"net/url"
+	"slices"
 	"strconv"
 	"strings"
 	"time"
@@ -262,6 +263,9 @@ func (p *HTTPProxy) ServeHTTP(w http.ResponseWriter, r *http.Request) {
 
 	start := timeNow()
 	rw := &responseWriter{w: w}
+	if len(w.Header()) > 0 {
+		rw.keep = w.Header().Clone()
+	}
 	h.ServeHTTP(rw, r)
 	end := timeNow()
 	dur := end.Sub(start)
@@ -307,10 +311,38 @@ func key(code int) string {
 // responseWriter wraps an http.ResponseWriter to capture the status code and
 // the size of the response. It also implements http.Hijacker to forward
 // hijacking the connection to the wrapped writer if supported.
+//
+// httputil.ReverseProxy clears the header map after every informational
+// (1xx) response it relays. The headers which were set before the handler
+// ran (e.g. Strict-Transport-Security) are remembered in keep and are put
+// back before the final status is written.
 type responseWriter struct {
 	w    http.ResponseWriter
 	code int
 	size int
+	keep http.Header
+}
+
+// informational reports whether code is the status of an interim response
+// which is followed by another status on the same exchange.
+func informational(code int) bool {
+	return code >= 100 && code < 200 && code != http.StatusSwitchingProtocols
+}
+
+// restoreHeaders puts the headers from keep back in front of the values
+// the handler has set if they are no longer there.
+func (rw *responseWriter) restoreHeaders() {
+	if len(rw.keep) == 0 {
+		return
+	}
+	h := rw.w.Header()
+	for k, vs := range rw.keep {
+		cur := h[k]
+		if len(cur) >= len(vs) && slices.Equal(cur[:len(vs)], vs) {
+			continue
+		}
+		h[k] = append(append([]string(nil), vs...), cur...)
+	}
 }
 
 func (rw *responseWriter) Header() http.Header {
@@ -318,12 +350,19 @@ func (rw *responseWriter) Header() http.Header {
 }
 
 func (rw *responseWriter) Write(b []byte) (int, error) {
+	if rw.code == 0 || informational(rw.code) {
+		// implicit WriteHeader(http.StatusOK)
+		rw.restoreHeaders()
+	}
 	n, err := rw.w.Write(b)
 	rw.size += n
 	return n, err
 }
 
 func (rw *responseWriter) WriteHeader(statusCode int) {
+	if !informational(statusCode) {
+		rw.restoreHeaders()
+	}
 	rw.w.WriteHeader(statusCode)
 	rw.code = statusCode
 }
